@@ -194,6 +194,10 @@ func (op _OpcodeType) decodeI(x uint32) (as abi.As, arg *abi.AsArgument, argRaw 
 			}
 		}
 	}
+	if as == AECALL && imm == 1 {
+		as = AEBREAK // ECALL and EBREAK share opcode/funct3, imm[11:0] tells them apart
+		arg.Imm = 0 // not an operand
+	}
 	if as == 0 {
 		err = fmt.Errorf("decodeI: opcode=%07b, funct3=%03b", op, funct3)
 		return
